@@ -29,6 +29,8 @@ def run(chk):
     chk.attempt(r15h, chk)
     chk.attempt(r15i, chk)
     chk.attempt(r15j, chk)
+    chk.attempt(r15k, chk)
+    chk.attempt(r15l, chk)
 
 
 def _is_filtered(e):
@@ -519,3 +521,94 @@ def r15j(chk, rid='R15.j'):
             ok = not isinstance(res, Raised) and appended == [(prefix, '_PREFIX')]
             chk.ob(rid, 'cssutils/css/selector.py', f'New.{h.name}', f'prefix {prefix!r} ' + ('in an attribute selector' if context else 'of a type selector') + ' is handed on unchanged', ok,
                    f'handed on {appended}: the name is resolved with another prefix than the one written - to another namespace, or to none (NamespaceErr)')
+
+
+def r15k(chk, rid='R15.k'):
+    chk.rule(rid, 'the serializer drops an @namespace rule only when nothing uses it, decided by evaluation: CSSSerializer.do_CSSStyleSheet is evaluated on its syntax tree for a model sheet whose own _getUsedURIs is the source\'s (evaluated over the model rules) with keepUsedNamespaceRulesOnly on and off: a namespace that is used only by a style rule inside an @media inside an @media, one that is used at top level and the default namespace are written, an unused one is dropped under the preference only; everything else is written in order')
+    from sa.absint import Evaluator, Obj, Raised, Record, SourceBacked
+
+    serm = chk.repo.mod('cssutils/serialize.py')
+    sm = chk.repo.mod(SHEET)
+    fn = serm.get('CSSSerializer.do_CSSStyleSheet')
+    K = dict(STYLE_RULE=1, MEDIA_RULE=4, NAMESPACE_RULE=10, CHARSET_RULE=2, IMPORT_RULE=3)
+
+    class RL(list):
+        def rulesOfType(self, t):
+            return [r for r in self if r.type == t]
+
+    class Media(Obj):
+        def __iter__(self):
+            return iter(self.cssRules)
+
+    def style(tag, uris):
+        return Obj(type=1, cssText=tag, selectorList=Record(_getUsedUris=lambda: set(uris)), **K)
+
+    def ns(prefix, uri):
+        return Obj(type=10, prefix=prefix, namespaceURI=uri, cssText=f'@namespace {prefix} "{uri}";', **K)
+
+    inner = Media(type=4, cssText='@media{inner}', cssRules=RL([style('deep', {'u-deep'})]), **K)
+    outer = Media(type=4, cssText='@media{outer}', cssRules=RL([inner]), **K)
+    rules = RL([ns('d', 'u-deep'), ns('t', 'u-top'), ns('', 'u-default'), ns('x', 'u-unused'), style('top', {'u-top', 'u-default'}), outer])
+    sheet = SourceBacked(sm, 'CSSStyleSheet', intrinsics={}, _cssRules=rules)
+    for keep_used_only in (True, False):
+        prefs = Record(keepUsedNamespaceRulesOnly=keep_used_only, lineSeparator='\n')
+        me = Record(prefs=prefs, _linenumnbers=lambda t: t)
+        got = Evaluator(fn, intrinsics={'cssutils': Record(css=Record(CSSRule=Record(**K)))}, module=serm, cls='CSSSerializer', model_types=(RL, SourceBacked, Media)).run(self=me, stylesheet=sheet)
+        if isinstance(got, Raised) or not isinstance(got, bytes):
+            raise AnalysisError(f'CSSSerializer.do_CSSStyleSheet: {got!r}')
+        lines = got.decode('utf-8').split('\n')
+        want = [r.cssText for r in rules if not (keep_used_only and getattr(r, 'namespaceURI', None) == 'u-unused')]
+        chk.ob(rid, 'cssutils/serialize.py', 'CSSSerializer.do_CSSStyleSheet', f'keepUsedNamespaceRulesOnly={keep_used_only}: exactly the unused @namespace rule is dropped' if keep_used_only else 'keepUsedNamespaceRulesOnly=False: every rule is written', lines == want,
+               f'written: {lines}; prescribed: {want} - a namespace that is used (at any nesting depth of @media) loses its declaration, so the text does not reparse or its names resolve differently')
+
+
+def r15l(chk, rid='R15.l'):
+    chk.rule(rid, 'the namespace mapping reads consistently, decided by evaluation: _Namespaces - its methods and container protocol evaluated from the source over a model rule list - is asked for a bound prefix, the default prefix, a prefix bound to the empty namespace and an unknown prefix: item access, get, `in`, keys, items, values, length and iteration all answer from the one computed mapping; a prefix that is listed can be looked up (also when its URI is the empty string) without an error report, an unknown prefix is reported as NamespaceErr')
+    import operator
+
+    from sa.absint import Obj, Raised, Record, SourceBacked, _Raise, xml_model
+
+    um = chk.repo.mod(UTIL)
+    K = dict(NAMESPACE_RULE=10, STYLE_RULE=1)
+
+    def unique_everseen(it, key=None):
+        seen, out = set(), []
+        for x in it:
+            k = key(x) if key else x
+            if k not in seen:
+                seen.add(k)
+                out.append(x)
+        return out
+
+    class Rules(list):
+        pass
+
+    rules = Rules([Obj(type=10, prefix='p', namespaceURI='u', **K), Obj(type=10, prefix='e', namespaceURI='', **K), Obj(type=10, prefix='', namespaceURI='d', **K), Obj(type=1, **K)])
+    errors = []
+    log = Record(error=lambda *a, **k: errors.append(k.get('error')))
+    ns = SourceBacked(um, '_Namespaces', intrinsics={'unique_everseen': unique_everseen, 'operator': operator, 'xml': xml_model(), 'self._log.error': log.error},
+                      parentStyleSheet=Record(cssRules=rules), _log=log)
+    want = {'p': 'u', 'e': '', '': 'd'}
+    try:
+        mapping = ns.namespaces
+        reads = {'namespaces': dict(mapping), 'keys': sorted(ns.keys()), 'items': sorted(ns.items()), 'values': sorted(ns.values()), 'len': len(ns), 'iter': sorted(iter(ns)),
+                 'in': [k for k in ('p', 'e', '', 'zz') if k in ns], 'get': [ns.get(k, 'MISSING') for k in ('p', 'e', '', 'zz')]}
+    except (_Raise, AttributeError, TypeError) as e:
+        raise AnalysisError(f'_Namespaces: the mapping protocol cannot be evaluated ({e!r})')
+    prescribed = {'namespaces': want, 'keys': sorted(want), 'items': sorted(want.items()), 'values': sorted(want.values()), 'len': 3, 'iter': sorted(want), 'in': ['p', 'e', ''], 'get': ['u', '', 'd', 'MISSING']}
+    diff = {k: reads[k] for k in prescribed if reads[k] != prescribed[k]}
+    chk.ob(rid, UTIL, '_Namespaces', 'keys, items, values, length, iteration, `in` and get answer from the computed mapping', not diff, f'{diff}')
+    for prefix, uri in want.items():
+        del errors[:]
+        try:
+            got = ns[prefix]
+        except _Raise as e:
+            got = e
+        chk.ob(rid, UTIL, '_Namespaces.__getitem__', f'prefix {prefix!r} (listed by keys) is looked up as {uri!r} without an error report', got == uri and not errors,
+               f'gives {got!r}, reports {errors}: selectors with this prefix cannot be set or appended in raising mode although the prefix is declared')
+    del errors[:]
+    try:
+        got = ns['zz']
+    except _Raise as e:
+        got = e
+    chk.ob(rid, UTIL, '_Namespaces.__getitem__', 'an unknown prefix is reported as NamespaceErr', errors == ['NamespaceErr'], f'gives {got!r}, reports {errors}')
